@@ -146,6 +146,14 @@ func runC20(c *Ctx, r *Rec) {
 		checkBornWithValues(c, r, "D2-born-with-values", qr)
 	}
 
+	checkMakeLenThenAppend(c, r, "D3-made-length-not-appended-to", c.allFuncDecls("module"))
+	checkCommaOkIntoCollected(c, r, "D5-assertion-keeps-collected", c.allFuncDecls("module"))
+	checkNoReadBackOfRangedMap(c, r, "D3-values-from-the-ranged-pairs", c.allFuncDecls("module"))
+	for _, sn := range c.allNamed("module") {
+		if structOf(sn) != nil {
+			checkReceiverWrites(c, r, "D5-receiver-writes-persist", sn)
+		}
+	}
 	// ---- D3 / D5 per constructor
 	direct := map[string]map[string]bool{
 		"List": {"AppendValue": true}, "Set": {"AddValue": true}, "Queue": {"AddValue": true},
